@@ -108,3 +108,57 @@ def _(u):
         got = u.run(DS, "TensorDictDatasetFastGeneration.__getitems__", list(chunk), selfobj=ds2, record=False)
         batch = u.run(DS, "TensorDictDatasetFastGeneration.collate_fn", got, record=False)
         _check_batch(u, f"chunk{c}", batch, td, chunk, D, extra=extra)
+
+
+# ---------------------------------------------------------------------------------------------
+# C17: greedy-rollout baseline values are computed chunk by chunk and must land on their own instance
+# ---------------------------------------------------------------------------------------------
+BLF = "rl4co/models/rl/reinforce/baselines.py"
+NROLL = 5
+ROLL_CHUNKS = ([0, 1], [2, 3], [4])      # DataLoader(batch_size=2) over 5 instances: the last batch is partial (A9)
+
+
+class _Policy:
+    """stub policy: the reward of an instance is a fixed function of that instance (its first coordinate)"""
+
+    def eval(self):
+        return self
+
+    def to(self, device):
+        return self
+
+    def __call__(self, batch, env, decode_type=None):
+        x = batch["locs"]
+        xs = x.snap()
+        return {"reward": mk((x.shape[0],), "f", lambda I: xs((I[0], 0, 0)) * 2 + 1)}
+
+
+@unit("rollout_baseline.rollout_and_wrap", file=BLF, func="RolloutBaseline.rollout", props=("C17",))
+def _(u):
+    D = u.dim("D")
+    locs = u.tensor("locs", (NROLL, D, 2), "f")
+    td = SymTD({"locs": locs}, (NROLL,))
+    base = u.obj(DS, "TensorDictDataset")
+    u.run(DS, "TensorDictDataset.__init__", td, selfobj=base, record=False)
+    u.inline((DS, "TensorDictDataset.__len__"), (DS, "TensorDictDataset.add_key"), (DS, "ExtraKeyDataset.__init__"), (DS, "TensorDictDataset.collate_fn"))
+
+    def loader(dataset, batch_size=None, collate_fn=None, **kw):
+        # one batch per chunk, built the way a DataLoader does: collate_fn over the items of the chunk
+        return [u.interp.apply(collate_fn, ([u.run(DS, "TensorDictDataset.__getitem__", i, selfobj=dataset, record=False) for i in chunk],), {}) for chunk in ROLL_CHUNKS]
+
+    u.stub(DataLoader=loader)
+    env = u.ns(reset=lambda batch: batch)
+    bl = u.obj(BLF, "RolloutBaseline", policy=_Policy(), dataset=base)
+    rewards = u.run(BLF, "RolloutBaseline.rollout", _Policy(), env, 2, "cpu", base, selfobj=bl, record=False)
+    u.prove("rollout.length", tuple(rewards.shape) == (NROLL,))
+    for i in range(NROLL):
+        u.prove(f"rollout.value{i}-belongs-to-instance{i}", rewards.at(i) == locs.at(i, 0, 0) * 2 + 1)
+    u.prove("rollout.no-gradient", not rewards.requires_grad)
+    # wrap_dataset: the values travel as the extra key of THEIR instance
+    u.inline((BLF, "RolloutBaseline.rollout"))
+    wrapped = u.run(BLF, "RolloutBaseline.wrap_dataset", base, env, 2, "cpu", selfobj=bl, record=False)
+    for i in (0, 3, 4):
+        item = u.run(DS, "ExtraKeyDataset.__getitem__", i, selfobj=wrapped, record=False)
+        d = u.idx((D,), f"d{i}")
+        u.prove(f"wrap.item{i}.extra-is-own-baseline-value", AND(item["extra"].at() == locs.at(i, 0, 0) * 2 + 1, item["locs"].at(d, 1) == locs.at(i, d, 1)))
+    u.canary("rollout.all-equal", rewards.at(4) == rewards.at(0))
